@@ -4,7 +4,9 @@ func branch(pc ProgramCounter, b ProgramCounter, C bool, bitmask Bitmask, instru
 	switch {
 	case !C:
 		return ExitContinue, pc
-	case !bitmask.IsStartOfBasicBlock(b) && instruction.isOpcodeValid(b):
+	case !bitmask.IsStartOfBasicBlock(b) || !instruction.isOpcodeValid(b):
+		// b ∉ ϖ: not the start of a basic block (this includes every b beyond the code), or not a
+		// valid opcode
 		return ExitPanic, pc
 	case b == pc:
 		return exitContinueSelfBranch, b
@@ -25,8 +27,8 @@ func djump(pc ProgramCounter, a uint32, jumpTable JumpTable, bitmask Bitmask) (E
 	index := a/ZA - 1 // GP,  if  ZA > 1, index = ZA*index
 	dest, _, err := ReadUintFixed(jumpTable.Data[index*jumpTable.Length:], int(jumpTable.Length))
 	if err != nil {
-		// memory corruption?
-		panic(err.Error())
+		// e.g. a jump-table entry width z > 8 declared by the (untrusted) program blob
+		return ExitPanic, pc
 	}
 
 	newPC := ProgramCounter(dest)
